@@ -129,6 +129,7 @@ func (v *Vue) evaluate(ctx VueContext, nodes []*html.Node, depth int) ([]*html.N
 							evaluated[i].NextSibling = evaluated[i+1]
 							evaluated[i+1].PrevSibling = evaluated[i]
 						}
+						evaluated[len(evaluated)-1].NextSibling = nil
 					}
 					result = append(result, templateNode)
 				} else {
@@ -174,6 +175,9 @@ func (v *Vue) evaluate(ctx VueContext, nodes []*html.Node, depth int) ([]*html.N
 
 				newNode.FirstChild = nil
 				for i, c := range newChildren {
+					// the evaluated children ARE the list: a node that was evaluated in place (<template v-html>) must not
+					// drag the unevaluated siblings of its source along
+					c.NextSibling = nil
 					if i == 0 {
 						newNode.FirstChild = c
 					} else {
